@@ -23,8 +23,9 @@ type Spec struct {
 	Count     int        `json:"count"` // number of runs
 	Out       string     `json:"out"`
 	Replay    *Replay    `json:"replay,omitempty"`
-	Replays   []Replay   `json:"replays,omitempty"` // batch of candidates (minimiser)
-	Repeat    int        `json:"repeat,omitempty"`  // replay: repeat the run up to N times until a violation shows (code under test with its own nondeterminism)
+	Replays   []Replay   `json:"replays,omitempty"`   // batch of candidates (minimiser)
+	Repeat    int        `json:"repeat,omitempty"`    // replay: repeat the run up to N times until a violation shows (code under test with its own nondeterminism)
+	PlanOnly  bool       `json:"plan_only,omitempty"` // only generate the plans of the runs (crash isolation)
 	MaxWallS  float64    `json:"max_wall_s,omitempty"`
 	KeepTrace bool       `json:"keep_trace,omitempty"`
 	Known     []KnownSig `json:"known,omitempty"` // recorded findings: reported once, never stop the search
@@ -235,6 +236,10 @@ func TestWorker(t *testing.T) {
 		seed := runSeed(spec.Seed, idx)
 		g := engine.NewGen(seed, spec.Tier)
 		plan := prof.Gen(g)
+		if spec.PlanOnly {
+			res.Samples = append(res.Samples, Sample{RunSeed: plan.Seed, Plan: plan})
+			continue
+		}
 		one(idx, plan, nil)
 		if res.Error != "" {
 			break
